@@ -635,3 +635,18 @@ def generate_lte_facts(src_h):
             "Definition lte_epsJ : Q := %s.\nDefinition lte_epsShock : Q := %s.\n" % (
                 qlit(consts["epsJ"]), qlit(consts["epsShock"])))
     return text, facts
+
+
+def manager_lte_fact(src_manager):
+    """WallGoManager.wallSpeedLTE is a plain delegation to Hydrodynamics.findvwLTE"""
+    tree = ast.parse(src_manager)
+    cls = [n for n in tree.body if isinstance(n, ast.ClassDef) and n.name == "WallGoManager"]
+    _expect(cls, "class WallGoManager")
+    fn = [f for f in cls[0].body if isinstance(f, ast.FunctionDef) and f.name == "wallSpeedLTE"]
+    _expect(fn, "WallGoManager.wallSpeedLTE")
+    body = [st for st in fn[0].body if not (isinstance(st, ast.Expr) and
+                                            isinstance(st.value, ast.Constant))]
+    _expect(len(body) == 1 and isinstance(body[0], ast.Return) and
+            ast.unparse(body[0].value) == "self.hydrodynamics.findvwLTE()",
+            "wallSpeedLTE returns self.hydrodynamics.findvwLTE()")
+    return "WallGoManager.wallSpeedLTE() = self.hydrodynamics.findvwLTE()"
